@@ -149,7 +149,7 @@ class Gen:
         return sorted(set(k))
 
     # -------------------------------------------------------------------------------
-    def draw_session(self, ttype):
+    def draw_session(self, ttype, force=None, want_kinds=False):
         r = self.r
         c = self.cat
         sm = self.sm
@@ -173,34 +173,35 @@ class Gen:
             if tags:
                 qs += [['get_tag', r.randrange(len(tags))], ['get_tag', len(tags) - 1]]
             return qs
+        inst = getattr(self, '_inst', None)
         if ttype == 'symtab':
-            m = r.choice(self.by_cls('SymbolTableSection'))
+            m = inst or r.choice(self.by_cls('SymbolTableSection'))
             cand = sym_queries(c['symbols'].get(m['i']), c['sym_names'].get(m['i'], []))
             target = ['sec', m['i']]
         elif ttype == 'dynsec':
-            w = r.choice(sorted(x for x in c['tags'] if x[0] == 'sec'))
+            w = inst or r.choice(sorted(x for x in c['tags'] if x[0] == 'sec'))
             cand = dyn_queries(c['tags'][w])
             target = list(w)
         elif ttype == 'dynseg':
-            w = r.choice(sorted(x for x in c['tags'] if x[0] == 'seg'))
+            w = inst or r.choice(sorted(x for x in c['tags'] if x[0] == 'seg'))
             cand = dyn_queries(c['tags'][w]) + sym_queries(c['dynseg_syms'].get(w[1]), c['dynseg_names'].get(w[1], []))
             target = list(w)
         elif ttype == 'rel':
-            i = r.choice(sorted(c['relocs']))
+            i = inst if inst is not None else r.choice(sorted(c['relocs']))
             n = len(c['relocs'][i] or [])
             cand = [['num_relocations'], ['iter_relocations', _take(r, n)]]
             if n:
                 cand += [['get_relocation', r.randrange(n)], ['get_relocation', n - 1], ['get_relocation', 0]]
             target = ['sec', i]
         elif ttype == 'ver':
-            m = r.choice(self.by_cls('GNUVerDefSection', 'GNUVerNeedSection'))
+            m = inst or r.choice(self.by_cls('GNUVerDefSection', 'GNUVerNeedSection'))
             cand = [['num_versions'], ['versions', _take(r, 3)], ['get_version', r.choice([0, 1, 2, 3, 4, 7])],
                     ['get_version', r.choice([1, 2, 99])]]
             if m['cls'] == 'GNUVerNeedSection':
                 cand.append(['has_indexes'])
             target = ['sec', m['i']]
         elif ttype == 'hash':
-            m = r.choice(self.by_cls('ELFHashSection', 'GNUHashSection'))
+            m = inst or r.choice(self.by_cls('ELFHashSection', 'GNUHashSection'))
             names = []
             for i2, nm in c['sym_names'].items():
                 if sm[i2]['type'] == 'SHT_DYNSYM':
@@ -251,8 +252,99 @@ class Gen:
             target = ['tu', t['sig']]
         else:
             raise AssertionError(ttype)
+        if want_kinds:
+            return sorted(set(q[0] for q in cand))
+        if force is not None:
+            qa = [q for q in cand if q[0] == force[0]]
+            qb = [q for q in cand if q[0] == force[1]]
+            if not qa or not qb:
+                return None
+            return ['session', target, [r.choice(qa), r.choice(qb)], ttype]
         qs = [r.choice(cand) for _ in range(nq)]
         return ['session', target, qs, ttype]
+
+    def systematic(self, cap):
+        """Ops that random drawing reaches too rarely: filters whose value occurs several times, duplicated names,
+        and for every kind of held object every ordered pair of query kinds (depth-2 histories on one object)."""
+        from collections import Counter
+        r = self.r
+        c = self.cat
+        first = []
+        for t, n in sorted(Counter(m['type'] for m in self.sm if isinstance(m['type'], str)).items()):
+            if n >= 2:
+                first.append(['sec_iter', t, None])
+        for t, n in sorted(Counter(g['type'] for g in self.gm if isinstance(g['type'], str)).items()):
+            if n >= 2:
+                first.append(['seg_iter', t, None])
+        for where in sorted(c['tags']):
+            tags = c['tags'][where] or []
+            cnt = Counter(t[1][1][1] for t in tags if isinstance(t[1][1][1], str))
+            for t, n in sorted(cnt.items()):
+                if n >= 2:
+                    first.append(['dyn_iter', list(where), t, None])
+                    first.append(['session', list(where), [['iter_tags', t, None], ['iter_tags', t, 1]], 'dynsec' if where[0] == 'sec' else 'dynseg'])
+        for n, k in sorted(Counter(m['name'] for m in self.sm if m['name']).items()):
+            if k >= 2:
+                first += [['sec_by_name', n], ['sec_index', n]]
+        for m in self.by_cls('SymbolTableSection'):
+            dups = [n for n, k in sorted(Counter(x for x in c['sym_names'].get(m['i'], []) if x).items()) if k >= 2]
+            for n in dups[:3]:
+                first.append(['sym_by_name', m['i'], n])
+        for m in self.by_cls('GNUVerDefSection', 'GNUVerNeedSection'):
+            for pol in ('eager', 'lazy-after-next', 'lazy-at-end', 'skip'):
+                first.append(['ver_iter', m['i'], pol, None])
+        for m in self.by_cls('ARMAttributesSection', 'RISCVAttributesSection'):
+            for mode in ('nested', 'subsections-only', 'counts'):
+                first.append(['attrs_walk', m['i'], mode, None])
+        # every instance of an ELF-level object kind x every ordered pair of query kinds
+        insts = {
+            'symtab': self.by_cls('SymbolTableSection'),
+            'dynsec': sorted(x for x in c['tags'] if x[0] == 'sec'),
+            'dynseg': sorted(x for x in c['tags'] if x[0] == 'seg'),
+            'rel': sorted(c['relocs']),
+            'ver': self.by_cls('GNUVerDefSection', 'GNUVerNeedSection'),
+            'hash': self.by_cls('ELFHashSection', 'GNUHashSection'),
+        }
+        complete = []
+        sampled = []
+        for kind in self.kinds:
+            if not kind.startswith('session:'):
+                continue
+            tt = kind.split(':', 1)[1]
+            for inst in (insts.get(tt) or [None]):
+                self._inst = inst
+                try:
+                    ks = self.draw_session(tt, want_kinds=True)
+                except Exception:
+                    ks = []
+                finally:
+                    self._inst = None
+                for ka in ks or []:
+                    for kb in ks:
+                        (complete if tt in insts else sampled).append((tt, inst, ka, kb))
+        r.shuffle(sampled)
+        r.shuffle(complete)
+        out = []
+        seen = set()
+
+        def add(o):
+            if o is not None and repr(o) not in seen:
+                seen.add(repr(o))
+                out.append(o)
+        for o in first:
+            add(o)
+        for tt, inst, ka, kb in complete + sampled:
+            if len(out) >= cap:
+                break
+            self._inst = inst
+            try:
+                o = self.draw_session(tt, force=(ka, kb))
+            except Exception:
+                o = None
+            finally:
+                self._inst = None
+            add(o)
+        return out
 
     def _unit(self, with_flat=True):
         us = [m for m in self.dw['unit_meta'] if m['flat']] if with_flat else self.dw['unit_meta']
